@@ -2,7 +2,7 @@
    update equations outside of it. *)
 From Coq Require Import List ZArith Bool Reals Lra Lia.
 From Flocq Require Import Core.Raux.
-From Inferno Require Import Base.Num Base.NumR Gen.NeuronDynamics Gen.NeuronAdaptation C03.Neuron C03.NeuronSpec C03.ThresholdProofs.
+From Inferno Require Import Base.Num Base.NumR Gen.NeuronDynamics Gen.NeuronAdaptation C03.Neuron C03.NeuronSpec C03.NumFacts.
 Import ListNotations.
 Open Scope R_scope.
 Local Notation exp := Rtrigo_def.exp.
